@@ -18,8 +18,8 @@ Definition rep_scalar (k : scalar_kind) (v : pval) : Prop :=
   | KInt64, VInt z => (-9223372036854775808 <= z <= 9223372036854775807)%Z
   | KUint32, VInt z => (0 <= z <= 4294967295)%Z
   | KUint64, VInt z => (0 <= z <= 18446744073709551615)%Z
-  | KFloat32, VFloat b => float_finite true b = true
-  | KFloat64, VFloat b => float_finite false b = true
+  | KFloat32, VFloat b => b < 4294967296 /\ float_finite true b = true
+  | KFloat64, VFloat b => b < 18446744073709551616 /\ float_finite false b = true
   | KBool, VBool _ => True
   | KString, VStr s | KKey, VStr s => valid_utf8 s = true
   | KBytes, VBytes s => Forall is_byte s
@@ -34,7 +34,8 @@ Definition rep_scalar (k : scalar_kind) (v : pval) : Prop :=
 (* what the decoded value is allowed to differ in: the decimal text is normalised *)
 Definition scalar_equiv (k : scalar_kind) (v v' : pval) : Prop :=
   match k with
-  | KDecimal => exists s s', v = VMsg [(1, VStr s)] /\ dec_normalise s = Some s' /\ v' = mk_decimal s'
+  | KDecimal => exists s s', v = VMsg [(1, VStr s)] /\ dec_normalise s = Some s' /\ v' = mk_decimal s' /\
+                            exists a b, dec_parse s = Some a /\ dec_parse s' = Some b /\ dec_eq a b
   | _ => v' = v
   end.
 
@@ -55,7 +56,8 @@ Section ScalarRT.
 
   (* the assumed law of strconv (exercised on every run against the real functions) *)
   Definition float_roundtrip : Prop :=
-    forall is32 bits, float_finite is32 bits = true -> parse_float is32 (fmt_float is32 bits) = Some bits.
+    forall (is32 : bool) (bits : N), bits < (if is32 then 4294967296 else 18446744073709551616) ->
+      float_finite is32 bits = true -> parse_float is32 (fmt_float is32 bits) = Some bits.
   (* time.Parse(time.RFC3339, _) begins with the fast path modelled by parse_rfc3339 *)
   Definition time_parse_extends : Prop :=
     forall s r, parse_rfc3339 s = Some r -> parse_time s = Some r.
@@ -139,12 +141,12 @@ Section ScalarRT.
               is_container J = false /\ J <> JNull /\
               exists v', dec_scalar KFloat32 J = Ok (Some v') /\ scalar_equiv KFloat32 v v'.
   Proof.
-    intros Hr. destruct v; cbn [rep_scalar] in Hr; try contradiction.
+    intros Hr. destruct v; cbn [rep_scalar] in Hr; try contradiction. destruct Hr as [Hbits Hr].
     exists (JNum (fmt_float true bits)).
       split. { eexists. split; [reflexivity|]. cbn [print]. unfold enc_float, float_is_nan, float_is_inf.
                unfold float_finite in Hr. destruct (float_exp_all_ones true bits); [discriminate|]. reflexivity. }
       split; [cbn [wfb]; apply Hfloat_ok; exact Hr|]. split; [reflexivity|]. split; [discriminate|].
-      exists (VFloat bits). split; [|reflexivity]. cbn [CodecEncDec.dec_scalar dec_float]. rewrite Hfloat_rt by exact Hr. reflexivity.
+      exists (VFloat bits). split; [|reflexivity]. cbn [CodecEncDec.dec_scalar dec_float]. rewrite Hfloat_rt by assumption. reflexivity.
   Qed.
 
   Lemma scalar_rt_KFloat64 v : rep_scalar KFloat64 v ->
@@ -152,12 +154,12 @@ Section ScalarRT.
               is_container J = false /\ J <> JNull /\
               exists v', dec_scalar KFloat64 J = Ok (Some v') /\ scalar_equiv KFloat64 v v'.
   Proof.
-    intros Hr. destruct v; cbn [rep_scalar] in Hr; try contradiction.
+    intros Hr. destruct v; cbn [rep_scalar] in Hr; try contradiction. destruct Hr as [Hbits Hr].
     exists (JNum (fmt_float false bits)).
       split. { eexists. split; [reflexivity|]. cbn [print]. unfold enc_float, float_is_nan, float_is_inf.
                unfold float_finite in Hr. destruct (float_exp_all_ones false bits); [discriminate|]. reflexivity. }
       split; [cbn [wfb]; apply Hfloat_ok; exact Hr|]. split; [reflexivity|]. split; [discriminate|].
-      exists (VFloat bits). split; [|reflexivity]. cbn [CodecEncDec.dec_scalar dec_float]. rewrite Hfloat_rt by exact Hr. reflexivity.
+      exists (VFloat bits). split; [|reflexivity]. cbn [CodecEncDec.dec_scalar dec_float]. rewrite Hfloat_rt by assumption. reflexivity.
   Qed.
 
   Lemma scalar_rt_KBool v : rep_scalar KBool v ->
@@ -265,7 +267,7 @@ Section ScalarRT.
       exists (JStr s). split; [eexists; split; [cbn [CodecEnc.enc_scalar]; unfold field_bytes; cbn [msg_get N.eqb Pos.eqb obind]; rewrite escape_spec, Hv; reflexivity|reflexivity]|].
       split; [exact Hv|]. split; [reflexivity|]. split; [discriminate|].
       exists (mk_decimal s'). split; [cbn [CodecEncDec.dec_scalar]; rewrite Hn; reflexivity|].
-      exists s, s'. repeat split; assumption.
+      exists s, s'. split; [reflexivity|]. split; [exact Hn|]. split; [reflexivity|]. apply dec_normalise_numeric. exact Hn.
   Qed.
 
   Lemma dec_scalar_ts s : dec_scalar KTimestamp (JStr s) =
@@ -514,7 +516,11 @@ Section RT.
     po_diverge : forall l1 l2, In l1 (leaves ps) -> In l2 (leaves ps) -> l1 <> l2 ->
                  paths_diverge (p_path l1) (p_path l2);
     po_siblings : forall l a n s, In l (leaves ps) -> p_path l = a ++ [n] -> In s (p_siblings l) ->
-                  s <> n /\ exists l2, In l2 (leaves ps) /\ p_path l2 = a ++ [s]
+                  s <> n /\ exists l2, In l2 (leaves ps) /\ p_path l2 = a ++ [s];
+    po_exposed : forall p, In p ps -> p_path p = [] ->
+                 exists r qs, p_ty p = FOneof r /\ lookup env r = Some (SOneof qs);
+    po_utf8 : forall p, In p ps -> valid_utf8 (p_json p) = true;
+    po_utf8_leaves : forall l, In l (leaves ps) -> valid_utf8 (p_json l) = true
   }.
 
   (* the JSON text encodeAny emits for the payload of a j5 Any *)
@@ -536,22 +542,26 @@ Section RT.
   | RV_scalar k v : rep_scalar k v -> rep_value (FScalar k) v
   | RV_enum r pre opts n name :
       lookup env r = Some (SEnum pre opts) -> option_by_number opts n = Some name ->
-      option_by_name pre opts name = Some n -> rep_value (FEnum r) (VEnum n)
+      option_by_name pre opts name = Some n -> valid_utf8 name = true -> rep_value (FEnum r) (VEnum n)
   | RV_object r ps m :
       lookup env r = Some (SObject ps) -> rep_props ps m -> rep_value (FObject r) (VMsg m)
   | RV_oneof r ps m :
       lookup env r = Some (SOneof ps) -> rep_props ps m ->
+      (forall q1 q2, In q1 ps -> In q2 ps ->
+         present (p_path q1) m <> None -> present (p_path q2) m <> None -> q1 = q2) ->
       rep_value (FOneof r) (VMsg m)
   | RV_array it l :
       l <> [] -> item_ok it = true -> Forall (rep_value it) l -> rep_value (FArray it) (VList l)
   | RV_map it es :
       es <> [] -> item_ok it = true -> NoDup (map fst es) -> Forall (fun kv => rep_value it (snd kv)) es ->
+      Forall (fun kv => valid_utf8 (fst kv) = true) es ->
       rep_value (FMap it) (VMap es)
   | RV_any m :
       (* a j5 Any: the type name is text, the payload is JSON text that the encoder can produce *)
       valid_utf8 (sfield 1 m) = true ->
       (forall n v, msg_get n m = Some v -> (n = 1 /\ exists s, v = VStr s) \/ (n = 2 /\ exists s, v = VBytes s) \/ (n = 3 /\ exists s, v = VBytes s)) ->
       (forall s, msg_get 3 m = Some (VBytes s) -> compact_json s) ->
+      (exists t, any_text m = Ok t) ->
       rep_value (FAny false) (VMsg m)
   (* every populated leaf holds a representable value that Set keeps, no two members of one
      proto oneof are populated, at most one member of an exposed oneof *)
@@ -1021,7 +1031,7 @@ Section RT.
         exists acc', (VMsg b). split; [exact Hh|]. split; [econstructor; eassumption|]. split; assumption.
       - (* oneof wrapper held by a field *)
         destruct Hdec as (ps & ms & mv & Hlk & -> & -> & Hone). rewrite Hlk.
-        inversion Hrv as [| | |? ? ? Hlk' Hrp| | |]; subst. rewrite Hlk in Hlk'. injection Hlk' as <-.
+        inversion Hrv as [| | |? ? ? Hlk' Hrp Hamo| | |]; subst. rewrite Hlk in Hlk'. injection Hlk' as <-.
         inversion Hrp as [? ? Hokps _ _ _]; subst.
         pose proof (leaves_flat ps (Hflat _ _ Hlk)) as Hlv.
         destruct (Hone F (d + 1) ps [] []) as (b & Hb & HinvB).
@@ -1280,7 +1290,7 @@ Section RT.
         destruct (IH F d (acc ++ [VMsg b])) as (l' & Hl' & Hf); [lia|exact Hd'|].
         exists (VMsg b :: l'). rewrite Hl', <- app_assoc. split; [reflexivity|]. constructor; [econstructor; eassumption|exact Hf].
       + destruct Hdec as (ps & ms & mv & Hlk & -> & -> & Hone). rewrite Hlk.
-        inversion Hrv as [| | |? ? ? Hlk' Hrp| | |]; subst. rewrite Hlk in Hlk'. injection Hlk' as <-.
+        inversion Hrv as [| | |? ? ? Hlk' Hrp Hamo| | |]; subst. rewrite Hlk in Hlk'. injection Hlk' as <-.
         destruct (oneof_fresh r ps mv ms F d Hlk Hrp Hone) as (b & Hb & Heq).
         { rewrite jsize_obj in HF. lia. } { unfold depth_ok in *. rewrite jnest_obj in Hd. lia. }
         rewrite Hb. cbn [obind].
@@ -1350,7 +1360,7 @@ Section RT.
         exists ((k, VMsg b) :: es'). rewrite Hes', <- app_assoc. split; [reflexivity|].
         constructor; [split; [reflexivity|econstructor; eassumption]|exact Hf].
       + destruct Hdec as (ps & ms' & mv & Hlk & -> & -> & Hone). rewrite Hget, Hlk.
-        inversion Hrv as [| | |? ? ? Hlk' Hrp| | |]; subst. rewrite Hlk in Hlk'. injection Hlk' as <-.
+        inversion Hrv as [| | |? ? ? Hlk' Hrp Hamo| | |]; subst. rewrite Hlk in Hlk'. injection Hlk' as <-.
         destruct (oneof_fresh r ps mv ms' F d Hlk Hrp Hone) as (b & Hb & Heq).
         { rewrite jsize_obj in HF. lia. } { unfold depth_ok in *. rewrite jnest_obj in Hd. lia. }
         rewrite Hb. cbn [obind]. rewrite map_set_fresh by exact Hget.
@@ -1559,7 +1569,7 @@ Section RT.
   Lemma kept_scalar_equiv k v v' e : scalar_equiv k v v' -> kept e v = true -> kept e v' = true.
   Proof.
     unfold scalar_equiv. destruct k; try (intros ->; auto).
-    intros (s & s' & -> & _ & ->) _. unfold mk_decimal, wkt_fields. cbn. destruct e; reflexivity.
+    intros (s & s' & -> & _ & -> & _) _. unfold mk_decimal, wkt_fields. cbn. destruct e; reflexivity.
   Qed.
 
   Lemma T_all : forall f, T_value f /\ T_object f /\ T_oneof f.
@@ -1610,7 +1620,7 @@ Section RT.
       cbn [dec_ok_value]. split; [exact Hnc|]. exists v'. split; [exact Hds|]. split; [exact Heq|].
       intros e. apply (kept_scalar_equiv k v v' e Heq).
     - (* enum *)
-      inversion Hrv as [|? ? ? ? ? Hlk Hbn Hbnm| | | | |]; subst. rewrite Hlk, Hbn in H.
+      inversion Hrv as [|? ? ? ? ? Hlk Hbn Hbnm Hvn| | | | |]; subst. rewrite Hlk, Hbn in H.
       apply escape_ok in H as [Hv ->]. exists (JStr name). split; [reflexivity|]. split; [exact Hv|]. split; [discriminate|].
       cbn [dec_ok_value]. exists pre, opts, name, n. repeat split; assumption.
     - (* object *)
@@ -1619,7 +1629,7 @@ Section RT.
       exists (JObj ms). split; [reflexivity|]. split; [exact Hw|]. split; [discriminate|].
       cbn [dec_ok_value]. exists ps, ms, m. repeat split; assumption.
     - (* oneof *)
-      inversion Hrv as [| | |? ? ? Hlk Hrp| | |]; subst. rewrite Hlk in H.
+      inversion Hrv as [| | |? ? ? Hlk Hrp Hamo| | |]; subst. rewrite Hlk in H.
       inversion Hrp as [? ? Hokps Hvals _ _]; subst.
       pose proof (leaves_flat ps (Hflat _ _ Hlk)) as Hlv.
       destruct (TOn f ltac:(lia) r ps m txt Hlk H) as (ms & -> & Hw & Hd).
@@ -1644,12 +1654,12 @@ Section RT.
       exists l'. split; [exact Hl'|]. split; [exact Hf|].
       intros ->. inversion Hf; subst. congruence.
     - (* map *)
-      inversion Hrv as [| | | | |? ? Hne Hit Hnd Hall|]; subst.
+      inversion Hrv as [| | | | |? ? Hne Hit Hnd Hall Hku|]; subst.
       apply omap_ok in H as (xs & Hxs & ->).
       assert (Hel : exists ms, xs = map member_text ms /\
                 forallb (fun kv => valid_utf8 (fst kv) && wfb (snd kv)) ms = true /\
                 Forall2 (fun kv km => fst kv = fst km /\ elem_ok it (snd kv) (snd km)) es ms).
-      { clear Hne Hnd Hrv. revert xs Hxs. induction Hall as [|[k x] r Hx Hr IH]; intros xs Hxs; cbn [map sequence] in Hxs.
+      { clear Hne Hnd Hrv Hku. revert xs Hxs. induction Hall as [|[k x] r Hx Hr IH]; intros xs Hxs; cbn [map sequence] in Hxs.
         - injection Hxs as <-. exists []. repeat split; constructor.
         - apply obind_ok in Hxs as (b & Hb & Hxs). apply omap_ok in Hxs as (ys & Hys & ->).
           cbn [fst snd] in *. apply obind_ok in Hb as (lb & Hlb & Hb). apply omap_ok in Hb as (b' & Hb' & ->).
@@ -1667,10 +1677,10 @@ Section RT.
       intros F d HF Hd. destruct (entries_rt it Hit es ms Hf2 Hndm F d [] [] HF Hd) as (es' & Hes' & Hf).
       { intros k _. split; [reflexivity|intros []]. }
       exists es'. split; [exact Hes'|]. split; [exact Hf|].
-      intros ->. inversion Hf; subst. congruence.
+      intros ->. inversion Hf as [|? ? ? ? ? ? E1 E2]; subst. apply Hne. reflexivity.
     - (* any *)
       destruct v as [| | | | | |m| |]; try discriminate.
-      inversion Hrv as [| | | | | |? Hvt Hshape Hraw]; subst.
+      inversion Hrv as [| | | | | |? Hvt Hshape Hraw Hat]; subst.
       unfold enc_any in H.
       apply obind_ok in H as (tn0 & Htn & H). apply obind_ok in H as (data & Hdata & H).
       apply obind_ok in H as (l1 & Hl1 & H). apply obind_ok in H as (t & Ht & H).
@@ -1773,11 +1783,20 @@ Section RT.
     nodup_b bytes_eqb (map p_json ps) && nodup_b prop_eqb L &&
     forallb (fun l => match p_path l with [] => false | _ => true end) L &&
     forallb (fun l1 => forallb (fun l2 => prop_eqb l1 l2 || diverge_b (p_path l1) (p_path l2)) L) L &&
-    forallb (siblings_ok_b L) L.
+    forallb (siblings_ok_b L) L &&
+    forallb (fun p => match p_path p with
+                      | [] => match p_ty p with
+                              | FOneof r => match lookup env r with Some (SOneof _) => true | _ => false end
+                              | _ => false
+                              end
+                      | _ => true
+                      end) ps &&
+    forallb (fun p => valid_utf8 (p_json p)) ps && forallb (fun l => valid_utf8 (p_json l)) L.
 
   Lemma props_ok_b_sound ps : props_ok_b ps = true -> props_ok ps.
   Proof.
     unfold props_ok_b. intros H.
+    apply andb_true_iff in H as [H Hul]. apply andb_true_iff in H as [H Hu]. apply andb_true_iff in H as [H Hexp].
     apply andb_true_iff in H as [H Hs]. apply andb_true_iff in H as [H Hd].
     apply andb_true_iff in H as [H Hp]. apply andb_true_iff in H as [Hn Hnd].
     constructor.
@@ -1793,6 +1812,11 @@ Section RT.
       split; [apply negb_true_iff in Hne; lia|].
       apply existsb_exists in Hex as (l2 & Hl2 & He). exists l2. split; [exact Hl2|].
       unfold path_eqb in He. destruct (list_eq_dec N.eq_dec (p_path l2) (a ++ [s])); [assumption|discriminate].
+    - intros p0 Hp0 Hpath. rewrite forallb_forall in Hexp. specialize (Hexp p0 Hp0). rewrite Hpath in Hexp.
+      destruct (p_ty p0) as [| | |r| | |]; try discriminate. destruct (lookup env r) as [[|qs|]|] eqn:El; try discriminate.
+      exists r, qs. split; [reflexivity|exact El].
+    - intros p0 Hp0. rewrite forallb_forall in Hu. apply Hu. exact Hp0.
+    - intros l Hl. rewrite forallb_forall in Hul. apply Hul. exact Hl.
   Qed.
 
 End RT.
@@ -1831,3 +1855,15 @@ Proof.
   specialize (H _ Hin). cbn [snd] in H. apply Forall_forall. intros p Hp. rewrite forallb_forall in H.
   specialize (H p Hp). destruct (p_path p); [discriminate|discriminate].
 Qed.
+
+(* the premises about strconv and time.Parse are jointly satisfiable *)
+Definition inst_fmt (is32 : bool) (bits : N) : bytes := print_Z (Z.of_N bits).
+Definition inst_parse_float (is32 : bool) (s : bytes) : option N := parse_N s.
+Lemma premises_satisfiable :
+  float_text_ok inst_fmt /\ float_roundtrip inst_fmt inst_parse_float /\ time_parse_extends parse_rfc3339.
+Proof.
+  split; [intros is32 bits _; apply print_Z_valid_number|].
+  split; [|intros s r H; exact H].
+  intros is32 bits _ _. unfold inst_fmt, inst_parse_float. rewrite parse_N_print_nat by lia. rewrite N2Z.id. reflexivity.
+Qed.
+
